@@ -4,6 +4,8 @@ import LeptosModel.Proofs.ReactiveReach
 -/
 namespace Leptos.Reactive
 
+variable {D : Nat → Prop}
+
 /-! ## `setSignal` and the effect flags -/
 
 theorem setSignal_flag (f : Nat) (s : State) (x : Nat) (v : Int) : FlagRel s (setSignal f s x v) := by
@@ -64,6 +66,23 @@ theorem NoFB.of_noWrite {p : Prog} {i : Nat} (h : (bodyOf p i).noWrite = true) :
   intro sg y hw
   rw [writesSig_of_noWrite _ sg h] at hw; cases hw
 
+/-- the stored value of an effect that has run is its body evaluated at the values it saw -/
+def ValOK (p : Prog) (s : State) (i : Nat) : Prop :=
+  (s.get i).runs ≠ 0 → ∀ ρ : Nat → Int, (∀ z ∈ (s.get i).seen, ρ z.1 = z.2.1) →
+    (s.get i).val = some (evalPure ρ (bodyOf p i))
+
+theorem ValOK.of_core {p : Prog} {s s' : State} {i : Nat} (h : ValOK p s i)
+    (hc : (s'.get i).core = (s.get i).core) : ValOK p s' i := by
+  have cf := Node.core_fields hc
+  intro hr ρ hρ
+  rw [cf.2.2.2.2.2.2.2.2] at hr
+  rw [cf.2.2.2.2.2.2.1] at hρ
+  rw [cf.2.1]
+  exact h hr ρ hρ
+
+theorem ValOK.of_eq {p : Prog} {s s' : State} {i : Nat} (h : ValOK p s i)
+    (hg : s'.get i = s.get i) : ValOK p s' i := h.of_core (by rw [hg])
+
 /-- obligations of a non-running effect that is not the one being polled -/
 structure EffC (p : Prog) (s : State) (i : Nat) : Prop where
   vals : NoFB p i → (s.get i).dirty = false → ∀ z ∈ (s.get i).seen,
@@ -72,6 +91,7 @@ structure EffC (p : Prog) (s : State) (i : Nat) : Prop where
   chanWoken : (s.get i).chan = true → (s.get i).woken = true
   srcClean : (s.get i).chan = false → ∀ y ∈ (s.get i).sources, (s.get y).kind = .memo →
     (s.get y).st = .clean
+  valOK : ValOK p s i
 
 /-- obligations of every non-running effect -/
 structure EffB (s : State) (i : Nat) : Prop where
@@ -79,9 +99,10 @@ structure EffB (s : State) (i : Nat) : Prop where
   srcSeen : (s.get i).sources = (s.get i).seen.map (·.1)
   ran : (s.get i).first = false → (s.get i).runs ≠ 0
 
-structure InvC (p : Prog) (s : State) (X : Option Nat) : Prop where
-  base : ∀ i, (s.get i).kind = .eff → (s.get i).running = false → EffB s i
-  eff : ∀ i, (s.get i).kind = .eff → (s.get i).running = false → X ≠ some i → EffC p s i
+structure InvC (p : Prog) (s : State) (X : Option Nat) (D : Nat → Prop) : Prop where
+  base : ∀ i, (s.get i).kind = .eff → (s.get i).running = false → ¬ D i → EffB s i
+  eff : ∀ i, (s.get i).kind = .eff → (s.get i).running = false → ¬ D i → X ≠ some i → EffC p s i
+  dead : ∀ i, D i → (s.get i).kind = .eff ∧ (s.get i).alive = false
 
 theorem EffB.of_core {s s' : State} {i : Nat} (hc : (s'.get i).core = (s.get i).core) (h : EffB s i) :
     EffB s' i := by
@@ -107,7 +128,7 @@ theorem EffC.of_upd {p : Prog} {s : State} {m : Nat} {r : State × Bool} (up : U
     cases hd0 : (s.get i).chan with
     | false => rfl
     | true => rw [fl.c i hd0] at hd; cases hd
-  refine ⟨?_, ?_, ?_, ?_⟩
+  refine ⟨?_, ?_, ?_, ?_, h.valOK.of_core hc⟩
   · intro hro hd z hz
     rw [cf.2.2.2.2.2.2.1] at hz
     have hd0 := dnot hd
@@ -162,7 +183,7 @@ theorem EffC.of_set {p : Prog} {s : State} (h : InvR p s) {x : Nat} {v0 : Int}
     cases hd0 : (s.get i).chan with
     | false => rfl
     | true => rw [fl.c i hd0] at hd; cases hd
-  refine ⟨?_, ?_, ?_, ?_⟩
+  refine ⟨?_, ?_, ?_, ?_, hc.valOK.of_core hcore⟩
   · intro hro hd z hz
     rw [cf.2.2.2.2.2.2.1] at hz
     have hv := hc.vals hro (dnot hd) z hz
@@ -200,30 +221,32 @@ theorem EffC.of_set {p : Prog} {s : State} (h : InvR p s) {x : Nat} {v0 : Int}
       rw [hcf] at this; cases this
 
 theorem InvC.of_upd {p : Prog} {s : State} {m : Nat} {r : State × Bool} {X : Option Nat}
-    (up : UpdPost p s m r) (hobs : ∀ o, s.obs = some o → X = some o) (h : InvC p s X) :
-    InvC p r.1 X := by
-  refine ⟨?_, ?_⟩
-  · intro i hk hr
+    (up : UpdPost p s m r) (hobs : ∀ o, s.obs = some o → X = some o) (h : InvC p s X D) :
+    InvC p r.1 X D := by
+  refine ⟨?_, ?_, fun i hd => ⟨by rw [up.frame.kind]; exact (h.dead i hd).1,
+    by rw [(Node.core_life (up.frame.effCore i (h.dead i hd).1)).1]; exact (h.dead i hd).2⟩⟩
+  · intro i hk hr hD
     have hk0 : (s.get i).kind = .eff := by rw [← up.frame.kind]; exact hk
-    exact (h.base i hk0 (by rw [← up.running]; exact hr)).of_core (up.frame.effCore i hk0)
-  · intro i hk hr hX
+    exact (h.base i hk0 (by rw [← up.running]; exact hr) hD).of_core (up.frame.effCore i hk0)
+  · intro i hk hr hD hX
     have hk0 : (s.get i).kind = .eff := by rw [← up.frame.kind]; exact hk
     have hr0 : (s.get i).running = false := by rw [← up.running]; exact hr
-    exact (h.eff i hk0 hr0 hX).of_upd up hk0 (h.base i hk0 hr0) (fun ho => hX (hobs i ho))
+    exact (h.eff i hk0 hr0 hD hX).of_upd up hk0 (h.base i hk0 hr0 hD) (fun ho => hX (hobs i ho))
 
 theorem InvC.of_set {p : Prog} {s : State} {X : Option Nat} (hi : InvR p s) {x : Nat} {v0 : Int}
     (hx : p[x]? = some (.sig v0)) (v : Int) {f : Nat} (hf : s.nodes.length ≤ f)
-    (sp : SetPost s (setSignal f s x v) x v) (h : InvC p s X) : InvC p (setSignal f s x v) X := by
+    (sp : SetPost s (setSignal f s x v) x v) (h : InvC p s X D) : InvC p (setSignal f s x v) X D := by
   have hne : ∀ i, (s.get i).kind = .eff → i ≠ x := by
     intro i hk e; subst e
     rw [hi.kind i _ hx] at hk; cases hk
-  refine ⟨?_, ?_⟩
-  · intro i hk hr
+  refine ⟨?_, ?_, fun i hd => ⟨by rw [sp.kind]; exact (h.dead i hd).1,
+    by rw [(Node.core_life (setSignal_core f s x v i (hne i (h.dead i hd).1))).1]; exact (h.dead i hd).2⟩⟩
+  · intro i hk hr hD
     rw [sp.kind] at hk; rw [sp.running] at hr
-    exact (h.base i hk hr).of_core (setSignal_core f s x v i (hne i hk))
-  · intro i hk hr hX
+    exact (h.base i hk hr hD).of_core (setSignal_core f s x v i (hne i hk))
+  · intro i hk hr hD hX
     rw [sp.kind] at hk; rw [sp.running] at hr
-    exact (h.eff i hk hr hX).of_set hi hx v hf sp hk (h.base i hk hr)
+    exact (h.eff i hk hr hD hX).of_set hi hx v hf sp hk (h.base i hk hr hD)
 
 /-! ## generic invariant through an effect body, knowing what the body reads and writes -/
 
@@ -302,6 +325,115 @@ theorem evalEff_gen2 {p : Prog} {u : State → Nat → State × Bool} {f : Nat} 
       | eff _ => rw [hpx] at hd; simp at hd
       | sig v0 => exact hwrite s1 x v0 v (hw x (by simp [Expr.writesSig])) h1 l1 q1 hpx
 
+/-! ## the value computed by an effect body -/
+
+theorem evalEff_val {p : Prog} {u : State → Nat → State × Bool} {f : Nat} (hu : UpdOK p u f)
+    {e : Nat} (hef : e ≤ f) (F : Nat) (hF : p.length ≤ F) :
+    ∀ (ex : Expr) (s : State), InvR p s → EffLoc s e → ex.readsBelow e = true →
+      ex.noUntracked = true → ex.readsData p = true →
+      ∃ L, ((evalE (readNode u) (setSignal F) e ex s).1.get e).seen = (s.get e).seen ++ L ∧
+        ∀ ρ : Nat → Int, (∀ z ∈ L, ρ z.1 = z.2.1) →
+          evalPure ρ ex = (evalE (readNode u) (setSignal F) e ex s).2
+  | .lit n, s, _, _, _, _, _ => ⟨[], by simp [evalE], fun _ _ => rfl⟩
+  | .rd tracked x, s, h, hl, hb, hu', hd => by
+    simp only [Expr.noUntracked] at hu'
+    subst hu'
+    simp only [Expr.readsBelow, decide_eq_true_eq] at hb
+    have hkx : (s.get x).kind ≠ .eff := by
+      simp only [Expr.readsData] at hd
+      cases hpx : p[x]? with
+      | none => rw [hpx] at hd; cases hd
+      | some d =>
+        rw [h.kind x d hpx]
+        cases d <;> simp_all [kindOf]
+    obtain ⟨s1, s2, v, ch, hrd, t, h1, up, _, _⟩ := readEff_cases hu hef h hl hb hkx
+    simp only [evalE, if_true]
+    rw [hrd]
+    simp only
+    have he1 : (s1.get e).kind = .eff := by rw [t.kind]; exact hl.kind
+    have he2 : e < s2.nodes.length := by
+      rw [up.frame.len, t.len]; exact s.lt_of_running hl.running
+    have cfe := Node.core_fields (up.frame.effCore e he1)
+    refine ⟨[(x, v, (s2.get x).ver)], ?_, fun ρ hρ => ?_⟩
+    · rw [State.emit_get, State.get_upd_same _ _ he2]
+      show (s2.get e).seen ++ _ = _
+      rw [cfe.2.2.2.2.2.2.1, t.seen]
+    · simpa [evalPure] using hρ _ List.mem_cons_self
+  | .add a b, s, h, hl, hb, hu', hd => by
+    simp only [Expr.readsBelow, Expr.noUntracked, Expr.readsData, Bool.and_eq_true] at hb hu' hd
+    obtain ⟨h1, l1⟩ := evalEff_spec hu hef F hF a s h hl hb.1 hu'.1 hd.1
+    obtain ⟨L1, s1e, e1⟩ := evalEff_val hu hef F hF a s h hl hb.1 hu'.1 hd.1
+    simp only [evalE]
+    generalize evalE (readNode u) (setSignal F) e a s = r1 at h1 l1 s1e e1
+    obtain ⟨s1, v1⟩ := r1
+    obtain ⟨L2, s2e, e2⟩ := evalEff_val hu hef F hF b s1 h1 l1 hb.2 hu'.2 hd.2
+    generalize evalE (readNode u) (setSignal F) e b s1 = r2 at s2e e2
+    obtain ⟨s2, v2⟩ := r2
+    refine ⟨L1 ++ L2, by rw [s2e, s1e, List.append_assoc], fun ρ hρ => ?_⟩
+    simp only [evalPure]
+    rw [e1 ρ (fun z hz => hρ z (List.mem_append_left _ hz)),
+      e2 ρ (fun z hz => hρ z (List.mem_append_right _ hz))]
+  | .mulc k a, s, h, hl, hb, hu', hd => by
+    simp only [Expr.readsBelow, Expr.noUntracked, Expr.readsData] at hb hu' hd
+    obtain ⟨L1, s1e, e1⟩ := evalEff_val hu hef F hF a s h hl hb hu' hd
+    simp only [evalE]
+    generalize evalE (readNode u) (setSignal F) e a s = r1 at s1e e1
+    obtain ⟨s1, v1⟩ := r1
+    refine ⟨L1, s1e, fun ρ hρ => ?_⟩
+    simp only [evalPure]
+    rw [e1 ρ hρ]
+  | .ite c t el, s, h, hl, hb, hu', hd => by
+    simp only [Expr.readsBelow, Expr.noUntracked, Expr.readsData, Bool.and_eq_true] at hb hu' hd
+    obtain ⟨h1, l1⟩ := evalEff_spec hu hef F hF c s h hl hb.1.1 hu'.1.1 hd.1.1
+    obtain ⟨L1, s1e, e1⟩ := evalEff_val hu hef F hF c s h hl hb.1.1 hu'.1.1 hd.1.1
+    simp only [evalE]
+    generalize evalE (readNode u) (setSignal F) e c s = r1 at h1 l1 s1e e1
+    obtain ⟨s1, v1⟩ := r1
+    simp only
+    by_cases hv : (v1 != 0) = true
+    · simp only [hv, if_true]
+      obtain ⟨L2, s2e, e2⟩ := evalEff_val hu hef F hF t s1 h1 l1 hb.1.2 hu'.1.2 hd.1.2
+      refine ⟨L1 ++ L2, by rw [s2e, s1e, List.append_assoc], fun ρ hρ => ?_⟩
+      simp only [evalPure]
+      rw [e1 ρ (fun z hz => hρ z (List.mem_append_left _ hz)), if_pos hv]
+      exact e2 ρ (fun z hz => hρ z (List.mem_append_right _ hz))
+    · simp only [hv, Bool.false_eq_true, if_false]
+      obtain ⟨L2, s2e, e2⟩ := evalEff_val hu hef F hF el s1 h1 l1 hb.2 hu'.2 hd.2
+      refine ⟨L1 ++ L2, by rw [s2e, s1e, List.append_assoc], fun ρ hρ => ?_⟩
+      simp only [evalPure]
+      rw [e1 ρ (fun z hz => hρ z (List.mem_append_left _ hz)), if_neg hv]
+      exact e2 ρ (fun z hz => hρ z (List.mem_append_right _ hz))
+  | .seq a b, s, h, hl, hb, hu', hd => by
+    simp only [Expr.readsBelow, Expr.noUntracked, Expr.readsData, Bool.and_eq_true] at hb hu' hd
+    obtain ⟨h1, l1⟩ := evalEff_spec hu hef F hF a s h hl hb.1 hu'.1 hd.1
+    obtain ⟨L1, s1e, _⟩ := evalEff_val hu hef F hF a s h hl hb.1 hu'.1 hd.1
+    simp only [evalE]
+    generalize evalE (readNode u) (setSignal F) e a s = r1 at h1 l1 s1e
+    obtain ⟨s1, v1⟩ := r1
+    obtain ⟨L2, s2e, e2⟩ := evalEff_val hu hef F hF b s1 h1 l1 hb.2 hu'.2 hd.2
+    refine ⟨L1 ++ L2, by rw [s2e, s1e, List.append_assoc], fun ρ hρ => ?_⟩
+    simp only [evalPure]
+    exact e2 ρ (fun z hz => hρ z (List.mem_append_right _ hz))
+  | .wr x a, s, h, hl, hb, hu', hd => by
+    simp only [Expr.readsBelow, Expr.noUntracked, Expr.readsData, Bool.and_eq_true] at hb hu' hd
+    obtain ⟨h1, l1⟩ := evalEff_spec hu hef F hF a s h hl hb hu' hd.2
+    obtain ⟨L1, s1e, e1⟩ := evalEff_val hu hef F hF a s h hl hb hu' hd.2
+    simp only [evalE]
+    generalize evalE (readNode u) (setSignal F) e a s = r1 at h1 l1 s1e e1
+    obtain ⟨s1, v1⟩ := r1
+    simp only at h1 l1 s1e e1 ⊢
+    have hex : e ≠ x := by
+      intro hc; subst hc
+      cases hpx : p[e]? with
+      | none => rw [hpx] at hd; simp at hd
+      | some d =>
+        have := h1.kind e d hpx
+        rw [l1.kind] at this
+        cases d <;> simp_all [kindOf]
+    refine ⟨L1, ?_, fun ρ hρ => ?_⟩
+    · rw [(Node.core_fields (setSignal_core F s1 x v1 e hex)).2.2.2.2.2.2.1]; exact s1e
+    · simp only [evalPure]; exact e1 ρ hρ
+
 /-! ## the running effect -/
 
 structure RunLocC (p : Prog) (s : State) (e : Nat) : Prop where
@@ -315,8 +447,8 @@ structure RunLocC (p : Prog) (s : State) (e : Nat) : Prop where
   noFirst : (s.get e).first = false
   ran : (s.get e).runs ≠ 0
 
-structure QC (p : Prog) (s : State) (e : Nat) : Prop where
-  others : InvC p s (some e)
+structure QC (p : Prog) (s : State) (e : Nat) (D : Nat → Prop) : Prop where
+  others : InvC p s (some e) D
   self : RunLocC p s e
   ss : SrcStatic p s
 
@@ -335,22 +467,26 @@ theorem InvC.congr {p : Prog} {s s' : State} {X : Option Nat} (e : Nat)
     (hsame : ∀ i, i ≠ e → (s.get i).kind = .eff → s'.get i = s.get i)
     (hfield : ∀ y, (s'.get y).kind = (s.get y).kind ∧ (s'.get y).val = (s.get y).val ∧
       (s'.get y).st = (s.get y).st ∧ (s'.get y).running = (s.get y).running)
-    (h : InvC p s X) : InvC p s' X := by
+    (hDe : ¬ D e)
+    (h : InvC p s X D) : InvC p s' X D := by
   have key : ∀ i, (s'.get i).kind = .eff → (s'.get i).running = false →
       i ≠ e ∧ (s.get i).kind = .eff ∧ (s.get i).running = false ∧ s'.get i = s.get i := by
     intro i hk hr
     have hie : i ≠ e := by intro hc; subst hc; rw [hrun] at hr; cases hr
     have hk0 : (s.get i).kind = .eff := by rw [← (hfield i).1]; exact hk
     exact ⟨hie, hk0, by rw [← (hfield i).2.2.2]; exact hr, hsame i hie hk0⟩
-  refine ⟨?_, ?_⟩
-  · intro i hk hr
+  refine ⟨?_, ?_, fun i hd => ?_⟩
+  rotate_left 2
+  · have hie : i ≠ e := fun hc => hDe (hc ▸ hd)
+    rw [hsame i hie (h.dead i hd).1]; exact h.dead i hd
+  · intro i hk hr hD
     obtain ⟨_, hk0, hr0, hg⟩ := key i hk hr
-    have b := h.base i hk0 hr0
+    have b := h.base i hk0 hr0 hD
     exact ⟨by rw [hg]; exact b.live, by rw [hg]; exact b.srcSeen, by rw [hg]; exact b.ran⟩
-  · intro i hk hr hX
+  · intro i hk hr hD hX
     obtain ⟨_, hk0, hr0, hg⟩ := key i hk hr
-    have c := h.eff i hk0 hr0 hX
-    refine ⟨?_, by rw [hg]; exact c.quietFlags, by rw [hg]; exact c.chanWoken, ?_⟩
+    have c := h.eff i hk0 hr0 hD hX
+    refine ⟨?_, by rw [hg]; exact c.quietFlags, by rw [hg]; exact c.chanWoken, ?_, c.valOK.of_eq hg⟩
     · intro hro hd z hz
       rw [hg] at hd hz
       rw [(hfield z.1).2.2.2, (hfield z.1).2.1]
@@ -363,11 +499,11 @@ theorem InvC.congr {p : Prog} {s s' : State} {X : Option Nat} (e : Nat)
 
 theorem hreadC {p : Prog} {u : State → Nat → State × Bool} {f : Nat} (hu : UpdOK p u f)
     {e : Nat} (hef : e ≤ f) (s : State) (x : Nat) (hrx : (bodyOf p e).readsNode x = true)
-    (h : InvR p s) (hl : EffLoc s e) (hq : QC p s e)
+    (h : InvR p s) (hl : EffLoc s e) (hq : QC p s e D)
     (hx : x < e) (hkx : (s.get x).kind ≠ .eff) :
     QC p (((readNode u s x).1.upd e fun n =>
         { n with seen := n.seen ++ [(x, (readNode u s x).2, ((readNode u s x).1.get x).ver)] }).emit
-          (.rdv e x (readNode u s x).2)) e := by
+          (.rdv e x (readNode u s x).2)) e D := by
   obtain ⟨s1, s2, v, ch, hrd, t, h1, up, hcx, hvx⟩ := readEff_cases hu hef h hl hx hkx
   rw [hrd]
   simp only
@@ -390,6 +526,9 @@ theorem hreadC {p : Prog} {u : State → Nat → State × Bool} {f : Nat} (hu : 
   have cfe := Node.core_fields (up.frame.effCore e he1)
   have cle := Node.core_life (up.frame.effCore e he1)
   have fl := up.frame.flags
+  have hDe : ¬ D e := fun hd => by
+    have := (hq.others.dead e hd).2
+    rw [hq.self.live.1] at this; cases this
   have hss3 : SrcStatic p s3 := by
     have hs1 : SrcStatic p s1 := by
       intro w y hy
@@ -406,13 +545,13 @@ theorem hreadC {p : Prog} {u : State → Nat → State × Bool} {f : Nat} (hu : 
       · rw [g3o w hw] at hy; exact hy)
   refine ⟨?_, ?_, hss3⟩
   · -- the other effects
-    have c1 : InvC p s1 (some e) := by
+    have c1 : InvC p s1 (some e) D := by
       refine InvC.congr e (by rw [t.running]; exact hl.running) ?_
-        (fun y => ⟨t.kind y, t.val y, t.st y, t.running y⟩) hq.others
+        (fun y => ⟨t.kind y, t.val y, t.st y, t.running y⟩) hDe hq.others
       intro i hie hki
       exact t.go i hie (by intro hix; subst hix; exact hkx hki)
-    have c2 : InvC p s2 (some e) := c1.of_upd up (fun o ho => by rw [t.obs, hl.obs] at ho; exact ho)
-    exact InvC.congr e (by rw [(f3 e).2.2.2]; exact hrun2) (fun i hie _ => g3o i hie) f3 c2
+    have c2 : InvC p s2 (some e) D := c1.of_upd up (fun o ho => by rw [t.obs, hl.obs] at ho; exact ho)
+    exact InvC.congr e (by rw [(f3 e).2.2.2]; exact hrun2) (fun i hie _ => g3o i hie) f3 hDe c2
   · have hseen2 : (s2.get e).seen = (s.get e).seen := cfe.2.2.2.2.2.2.1.trans (t.seen e)
     have hsrc2 : (s2.get e).sources = (s.get e).sources ++ [x] := cfe.2.2.1.trans t.sources_m
     have hchan : (s3.get e).chan = (s2.get e).chan := by rw [g3e]
@@ -474,8 +613,8 @@ theorem hreadC {p : Prog} {u : State → Nat → State × Bool} {f : Nat} (hu : 
 
 theorem hwriteC {p : Prog} {e : Nat} (F : Nat) (hF : p.length ≤ F)
     (s : State) (x : Nat) (v0 v : Int) (hW : (bodyOf p e).writesSig x = true)
-    (h : InvR p s) (hl : EffLoc s e) (hq : QC p s e) (hx : p[x]? = some (.sig v0)) :
-    QC p (setSignal F s x v) e := by
+    (h : InvR p s) (hl : EffLoc s e) (hq : QC p s e D) (hx : p[x]? = some (.sig v0)) :
+    QC p (setSignal F s x v) e D := by
   have hf : s.nodes.length ≤ F := by rw [h.len]; exact hF
   obtain ⟨h', sp⟩ := setSignal_inv h hx v (f := F) hf
   have hex : e ≠ x := by
@@ -547,11 +686,14 @@ theorem hwriteC {p : Prog} {e : Nat} (F : Nat) (hF : p.length ≤ F)
     · exact fl.w e (hq.self.cw h1)
     · exact h1
 
+/-- no disposed effects -/
+abbrev NoDead : Nat → Prop := fun _ => False
+
 /-! ## between operations -/
 
-structure TopC (p : Prog) (s : State) : Prop where
+structure TopC (p : Prog) (s : State) (D : Nat → Prop) : Prop where
   quiet : Quiet p s
-  conv : InvC p s none
+  conv : InvC p s none D
   ss : SrcStatic p s
 
 theorem SrcStatic.updFlag {p : Prog} {s : State} (h : SrcStatic p s) (i : Nat) (g : Node → Node)
@@ -562,8 +704,8 @@ theorem SrcStatic.updFlag {p : Prog} {s : State} (h : SrcStatic p s) (i : Nat) (
     · rw [hg] at hy; exact hy
     · exact hy)
 
-theorem InvC.weaken {p : Prog} {s : State} (h : InvC p s none) (X : Option Nat) : InvC p s X :=
-  ⟨h.base, fun i hk hr _ => h.eff i hk hr (by simp)⟩
+theorem InvC.weaken {p : Prog} {s : State} (h : InvC p s none D) (X : Option Nat) : InvC p s X D :=
+  ⟨h.base, fun i hk hr hD _ => h.eff i hk hr hD (by simp), h.dead⟩
 
 /-- the polled effect `e`: everything but `chan → woken` -/
 structure BusyC (p : Prog) (s : State) (e : Nat) : Prop where
@@ -572,13 +714,14 @@ structure BusyC (p : Prog) (s : State) (e : Nat) : Prop where
   quietFlags : (s.get e).chan = false → (s.get e).dirty = false ∧ (s.get e).first = false
   srcClean : (s.get e).chan = false → ∀ y ∈ (s.get e).sources, (s.get y).kind = .memo →
     (s.get y).st = .clean
+  valOK : ValOK p s e
 
-theorem InvC.close {p : Prog} {s : State} {e : Nat} (h : InvC p s (some e))
-    (he : (s.get e).running = false → EffC p s e) : InvC p s none := by
-  refine ⟨h.base, fun i hk hr _ => ?_⟩
+theorem InvC.close {p : Prog} {s : State} {e : Nat} (h : InvC p s (some e) D)
+    (he : (s.get e).running = false → EffC p s e) : InvC p s none D := by
+  refine ⟨h.base, fun i hk hr hD _ => ?_, h.dead⟩
   by_cases hie : i = e
   · subst hie; exact he hr
-  · exact h.eff i hk hr (by intro hc; exact hie (Option.some.inj hc).symm)
+  · exact h.eff i hk hr hD (by intro hc; exact hie (Option.some.inj hc).symm)
 
 /-- transfer of `InvC … (some e)` when only `e` itself and edge lists of data nodes change -/
 theorem InvC.congrE {p : Prog} {s s' : State} (e : Nat) (hI : InvR p s)
@@ -586,25 +729,28 @@ theorem InvC.congrE {p : Prog} {s s' : State} (e : Nat) (hI : InvR p s)
     (hkind : ∀ y, (s'.get y).kind = (s.get y).kind)
     (hfield : ∀ y, (s.get y).kind ≠ .eff → (s'.get y).val = (s.get y).val ∧
       (s'.get y).st = (s.get y).st ∧ (s'.get y).running = (s.get y).running)
-    (hbase : (s'.get e).running = false → EffB s' e)
-    (h : InvC p s (some e)) : InvC p s' (some e) := by
-  refine ⟨?_, ?_⟩
-  · intro i hk hr
+    (hbase : (s'.get e).running = false → EffB s' e) (hDe : ¬ D e)
+    (h : InvC p s (some e) D) : InvC p s' (some e) D := by
+  refine ⟨?_, ?_, fun i hd => ?_⟩
+  rotate_left 2
+  · have hie : i ≠ e := fun hc => hDe (hc ▸ hd)
+    rw [hsame i hie (h.dead i hd).1]; exact h.dead i hd
+  · intro i hk hr hD
     by_cases hie : i = e
     · subst hie; exact hbase hr
     · have hk0 : (s.get i).kind = .eff := by rw [← hkind]; exact hk
       have hg := hsame i hie hk0
-      have b := h.base i hk0 (by rw [← hg]; exact hr)
+      have b := h.base i hk0 (by rw [← hg]; exact hr) hD
       exact ⟨by rw [hg]; exact b.live, by rw [hg]; exact b.srcSeen, by rw [hg]; exact b.ran⟩
-  · intro i hk hr hX
+  · intro i hk hr hD hX
     have hie : i ≠ e := by intro hc; subst hc; exact hX rfl
     have hk0 : (s.get i).kind = .eff := by rw [← hkind]; exact hk
     have hg := hsame i hie hk0
     have hr0 : (s.get i).running = false := by rw [← hg]; exact hr
-    have b := h.base i hk0 hr0
-    have c := h.eff i hk0 hr0 hX
+    have b := h.base i hk0 hr0 hD
+    have c := h.eff i hk0 hr0 hD hX
     have data : ∀ y, y ∈ (s.get i).sources → (s.get y).kind ≠ .eff := fun y hy => hI.srcData i y hy
-    refine ⟨?_, by rw [hg]; exact c.quietFlags, by rw [hg]; exact c.chanWoken, ?_⟩
+    refine ⟨?_, by rw [hg]; exact c.quietFlags, by rw [hg]; exact c.chanWoken, ?_, c.valOK.of_eq hg⟩
     · intro hro hd z hz
       rw [hg] at hd hz
       have hz1 : z.1 ∈ (s.get i).sources := by rw [b.srcSeen]; exact List.mem_map_of_mem hz
@@ -673,9 +819,9 @@ theorem walk_keeps_clean {p : Prog} {u : State → Nat → State × Bool} {f : N
     · exact hy1
     · exact walk_keeps_clean hu e l s1 (fun z hz => hl z (List.mem_cons_of_mem _ hz)) q1 y hy1
 
-structure WalkPost (p : Prog) (s : State) (e : Nat) (l : List Nat) (r : State × Bool) : Prop where
+structure WalkPost (p : Prog) (D : Nat → Prop) (s : State) (e : Nat) (l : List Nat) (r : State × Bool) : Prop where
   quiet : Quiet p r.1
-  conv : InvC p r.1 (some e)
+  conv : InvC p r.1 (some e) D
   kind : ∀ i, (r.1.get i).kind = (s.get i).kind
   self : WalkSelf p r.1 e
   base : EffB r.1 e
@@ -684,8 +830,8 @@ structure WalkPost (p : Prog) (s : State) (e : Nat) (l : List Nat) (r : State ×
   ss : SrcStatic p s → SrcStatic p r.1
 
 theorem walk_specC {p : Prog} {u : State → Nat → State × Bool} {f : Nat} (hu : UpdOK p u f)
-    (e : Nat) : ∀ (l : List Nat) (s : State), (∀ x ∈ l, x < f) → Quiet p s → InvC p s (some e) →
-      (s.get e).kind = .eff → EffB s e → WalkSelf p s e → WalkPost p s e l (anySrc u false e l s)
+    (e : Nat) : ∀ (l : List Nat) (s : State), (∀ x ∈ l, x < f) → Quiet p s → InvC p s (some e) D →
+      (s.get e).kind = .eff → EffB s e → WalkSelf p s e → WalkPost p D s e l (anySrc u false e l s)
   | [], s, _, hq, hc, _, hb, hw => ⟨hq, hc, fun _ => rfl, hw, hb, rfl, fun _ _ hx => (by cases hx), fun h => h⟩
   | x :: l, s, hl, hq, hc, hk, hb, hw => by
     have up := hu s x hq.inv (hl x List.mem_cons_self) (hq.idle x)
@@ -695,7 +841,7 @@ theorem walk_specC {p : Prog} {u : State → Nat → State × Bool} {f : Nat} (h
     obtain ⟨s1, ch⟩ := r
     have q1 : Quiet p s1 := ⟨up.inv, fun i => (up.running i).trans (hq.idle i)⟩
     have hobs : s.obs ≠ some e := by rw [hq.obs]; simp
-    have c1 : InvC p s1 (some e) := hc.of_upd up (fun o ho => by rw [hq.obs] at ho; cases ho)
+    have c1 : InvC p s1 (some e) D := hc.of_upd up (fun o ho => by rw [hq.obs] at ho; cases ho)
     have w1 : WalkSelf p s1 e := hw.of_upd up hk hb hobs
     have b1 : EffB s1 e := hb.of_core (up.frame.effCore e hk)
     simp only
@@ -715,15 +861,15 @@ theorem walk_specC {p : Prog} {u : State → Nat → State × Bool} {f : Nat} (h
       · exact ih.allClean hfalse y hy (by rw [up.frame.kind]; exact hky)
 
 /-- flag update on the polled effect (`e` stays non-running) -/
-theorem InvC.flagBusy {p : Prog} {s : State} {e : Nat} (hI : InvR p s) (h : InvC p s (some e))
+theorem InvC.flagBusy {p : Prog} {s : State} {e : Nat} (hI : InvR p s) (h : InvC p s (some e) D)
     (hk : (s.get e).kind = .eff) (hr : (s.get e).running = false) (g : Node → Node)
-    (gc : ∀ n, (g n).core = n.core) :
-    InvC p (s.upd e g) (some e) ∧ EffB (s.upd e g) e := by
+    (gc : ∀ n, (g n).core = n.core) (hD : ¬ D e) :
+    InvC p (s.upd e g) (some e) D ∧ EffB (s.upd e g) e := by
   have he : e < s.nodes.length := s.lt_of_kind_ne (by rw [hk]; simp)
   have ge : (s.upd e g).get e = g (s.get e) := State.get_upd_same _ _ he
   have go : ∀ i, i ≠ e → (s.upd e g).get i = s.get i := fun i hi => State.get_upd_ne _ _ (Ne.symm hi)
-  have hb : EffB (s.upd e g) e := (h.base e hk hr).of_core (by rw [ge]; exact gc _)
-  refine ⟨InvC.congrE e hI (fun i hi _ => go i hi) ?_ ?_ (fun _ => hb) h, hb⟩
+  have hb : EffB (s.upd e g) e := (h.base e hk hr hD).of_core (by rw [ge]; exact gc _)
+  refine ⟨InvC.congrE e hI (fun i hi _ => go i hi) ?_ ?_ (fun _ => hb) hD h, hb⟩
   · intro y; by_cases hy : y = e
     · subst hy; rw [ge]; exact (Node.core_fields (gc _)).1
     · rw [go y hy]
@@ -731,28 +877,29 @@ theorem InvC.flagBusy {p : Prog} {s : State} {e : Nat} (hI : InvR p s) (h : InvC
     have hy : y ≠ e := by intro hc; subst hc; exact hky hk
     rw [go y hy]; exact ⟨rfl, rfl, rfl⟩
 
-structure EffUpdPostC (p : Prog) (s3 : State) (e : Nat) (need : Bool) : Prop where
+structure EffUpdPostC (p : Prog) (D : Nat → Prop) (s3 : State) (e : Nat) (need : Bool) : Prop where
   quiet : Quiet p s3
-  conv : InvC p s3 (some e)
+  conv : InvC p s3 (some e) D
   kind : (s3.get e).kind = .eff
   base : EffB s3 e
   clean : (s3.get e).dirty = false
   cw : (s3.get e).chan = true → (s3.get e).woken = true
   ss : SrcStatic p s3
+  valOK : ValOK p s3 e
   ready : need = false → (NoFB p e → ∀ z ∈ (s3.get e).seen,
       (s3.get z.1).running = true ∨ (s3.get z.1).val = some z.2.1) ∧
     ∀ y ∈ (s3.get e).sources, (s3.get y).kind = .memo → (s3.get y).st = .clean
 
 theorem effUpdate_specC {p : Prog} {f : Nat} (hu : UpdOK p (upd p f) f) (hf : p.length ≤ f)
-    {s : State} {e : Nat} (hq : Quiet p s) (hc : InvC p s (some e)) (hk : (s.get e).kind = .eff)
+    {s : State} {e : Nat} (hq : Quiet p s) (hc : InvC p s (some e) D) (hk : (s.get e).kind = .eff)
     (hvals : NoFB p e → (s.get e).dirty = false → ∀ z ∈ (s.get e).seen,
       (s.get z.1).running = true ∨ (s.get z.1).val = some z.2.1)
-    (hchan : (s.get e).chan = false) (hss : SrcStatic p s) :
-    EffUpdPostC p ({ (effUpdate p f { s with obs := some e } e).1 with obs := none }) e
+    (hchan : (s.get e).chan = false) (hss : SrcStatic p s) (hD : ¬ D e) (hval : ValOK p s e) :
+    EffUpdPostC p D ({ (effUpdate p f { s with obs := some e } e).1 with obs := none }) e
       (effUpdate p f { s with obs := some e } e).2 := by
   have hobs := hq.obs
   have he : e < s.nodes.length := s.lt_of_kind_ne (by rw [hk]; simp)
-  have hb := hc.base e hk (hq.idle e)
+  have hb := hc.base e hk (hq.idle e) hD
   cases hd : (s.get e).dirty with
   | true =>
     rw [effUpdate_dirty p f { s with obs := some e } e hd]
@@ -761,13 +908,13 @@ theorem effUpdate_specC {p : Prog} {f : Nat} (hu : UpdOK p (upd p f) f) (hf : p.
     simp only
     rw [e1, State.setObs_none_eq hobs]
     obtain ⟨c', b'⟩ := hc.flagBusy hq.inv hk (hq.idle e) (fun n => { n with dirty := false })
-      (fun _ => rfl)
+      (fun _ => rfl) hD
     obtain ⟨q', hk'⟩ := hq.flagEff hk (fun n => { n with dirty := false })
       (fun _ => ⟨rfl, rfl, rfl, rfl, rfl, rfl⟩)
     have ge : (s.upd e fun n => { n with dirty := false }).get e = { s.get e with dirty := false } :=
       State.get_upd_same _ _ he
     exact ⟨q', c', hk', b', by rw [ge], (by rw [ge]; intro hc'; rw [hchan] at hc'; cases hc'),
-      hss.updFlag e _ (fun _ => rfl), fun hn => by cases hn⟩
+      hss.updFlag e _ (fun _ => rfl), hval.of_core (by rw [ge]; rfl), fun hn => by cases hn⟩
   | false =>
     rw [effUpdate_clean p f { s with obs := some e } e hd]
     have e0 : ({ ({ s with obs := some e } : State) with obs := none } : State) = s :=
@@ -788,7 +935,7 @@ theorem effUpdate_specC {p : Prog} {f : Nat} (hu : UpdOK p (upd p f) f) (hf : p.
         obs := none } : State) = ({ s2 with obs := none } : State).upd e fun n => { n with dirty := false } := rfl
     rw [e1, State.setObs_none_eq hw.quiet.obs]
     obtain ⟨c', b'⟩ := hw.conv.flagBusy hw.quiet.inv hk2 (hw.quiet.idle e)
-      (fun n => { n with dirty := false }) (fun _ => rfl)
+      (fun n => { n with dirty := false }) (fun _ => rfl) hD
     obtain ⟨q', hk'⟩ := hw.quiet.flagEff hk2 (fun n => { n with dirty := false })
       (fun _ => ⟨rfl, rfl, rfl, rfl, rfl, rfl⟩)
     have ge : (s2.upd e fun n => { n with dirty := false }).get e = { s2.get e with dirty := false } :=
@@ -803,7 +950,8 @@ theorem effUpdate_specC {p : Prog} {f : Nat} (hu : UpdOK p (upd p f) f) (hf : p.
       · subst hy; rw [ge]; exact ⟨rfl, rfl, rfl, rfl⟩
       · rw [go y hy]; exact ⟨rfl, rfl, rfl, rfl⟩
     refine ⟨q', c', hk', b', by rw [ge], (by rw [ge]; exact hw.self.cw),
-      (hw.ss hss).updFlag e _ (fun _ => rfl), ?_⟩
+      (hw.ss hss).updFlag e _ (fun _ => rfl),
+      (hval.of_core hw.core).of_core (by rw [ge]; rfl), ?_⟩
     intro hneed
     have hany : any = false := by
       cases any with
@@ -827,13 +975,13 @@ theorem effUpdate_specC {p : Prog} {f : Nat} (hu : UpdOK p (upd p f) f) (hf : p.
       exact hw.allClean hany y hy hky
 
 theorem effRun_specC {p : Prog} {f : Nat} (hu : UpdOK p (upd p f) f) (hf : p.length < f)
-    (hpe : EffOK p) {s : State} {e : Nat} (hq : Quiet p s) (hc : InvC p s (some e))
+    (hpe : EffOK p) {s : State} {e : Nat} (hq : Quiet p s) (hc : InvC p s (some e) D)
     (hk : (s.get e).kind = .eff) (hd : (s.get e).dirty = false)
-    (hcw : (s.get e).chan = true → (s.get e).woken = true) (hss : SrcStatic p s) :
-    TopC p (effRun p f s e none) ∧ ((effRun p f s e none).get e).kind = .eff := by
+    (hcw : (s.get e).chan = true → (s.get e).woken = true) (hss : SrcStatic p s) (hD : ¬ D e) :
+    TopC p (effRun p f s e none) D ∧ ((effRun p f s e none).get e).kind = .eff := by
   have he : e < s.nodes.length := s.lt_of_kind_ne (by rw [hk]; simp)
   have hep : e < p.length := by rw [← hq.inv.len]; exact he
-  have hb := hc.base e hk (hq.idle e)
+  have hb := hc.base e hk (hq.idle e) hD
   have q1 := hq.updEff hk (fun n => { n with first := false }) hk rfl rfl (fun _ hx => hx)
     (Nat.le_refl _) (hq.idle e)
   unfold effRun
@@ -884,8 +1032,8 @@ theorem effRun_specC {p : Prog} {f : Nat} (hu : UpdOK p (upd p f) f) (hf : p.len
     by_cases hre : r = e
     · exact hre
     · rw [g4o r hre, idle2 r] at hr; cases hr
-  have c4 : InvC p s4 (some e) := by
-    refine InvC.congrE e hq.inv ?_ ?_ ?_ (fun hr => by rw [g4e] at hr; cases hr) hc
+  have c4 : InvC p s4 (some e) D := by
+    refine InvC.congrE e hq.inv ?_ ?_ ?_ (fun hr => by rw [g4e] at hr; cases hr) hD hc
     · intro i hie hki
       rw [g4o' i hie]
       have : e ∉ (s.get i).subs := by
@@ -902,7 +1050,7 @@ theorem effRun_specC {p : Prog} {f : Nat} (hu : UpdOK p (upd p f) f) (hf : p.len
     by_cases hw : w = e
     · subst hw; rw [g4e, t.gm] at hy; cases hy
     · rw [g4o' w hw] at hy; exact hy)
-  have q4 : QC p s4 e := by
+  have q4 : QC p s4 e D := by
     refine ⟨c4, ⟨(by rw [g4e, t.gm, g1e]; exact hb.live), (by rw [g4e, t.gm]; rfl),
       fun _ z hz => (by rw [g4e] at hz; cases hz), fun _ z hz => (by rw [g4e] at hz; cases hz), ?_, ?_,
       (by rw [g4e, t.gm, g1e]), (by rw [g4e]; exact Nat.succ_ne_zero _)⟩, ss4⟩
@@ -925,17 +1073,21 @@ theorem effRun_specC {p : Prog} {f : Nat} (hu : UpdOK p (upd p f) f) (hf : p.len
   have hbo : bodyOf p e = b := by simp only [bodyOf, hb']
   have ev := evalEff_spec hu (by omega) f (by omega) (bodyOf p e) s4 h4 l4
     (by rw [hbo]; exact hbody.1) (by rw [hbo]; exact hbody.2.1) (by rw [hbo]; exact hbody.2.2)
-  have evq := evalEff_gen2 hu (e := e) (by omega) f (by omega) (fun s => QC p s e)
+  have evq := evalEff_gen2 hu (e := e) (by omega) f (by omega) (fun s => QC p s e D)
     (fun y => (bodyOf p e).readsNode y = true) (fun sg => (bodyOf p e).writesSig sg = true)
     (fun s x hrx h' hl' hq' hx hkx => hreadC hu (by omega) s x hrx h' hl' hq' hx hkx)
     (fun s x v0 v hW h' hl' hq' hx => hwriteC f (by omega) s x v0 v hW h' hl' hq' hx)
     (bodyOf p e) s4 h4 l4 q4
     (by rw [hbo]; exact hbody.1) (by rw [hbo]; exact hbody.2.1) (by rw [hbo]; exact hbody.2.2)
     (fun _ hy => hy) (fun _ hy => hy)
-  generalize evalE (readNode (upd p f)) (setSignal f) e (bodyOf p e) s4 = r at ev evq
+  have evv := evalEff_val hu (e := e) (by omega) f (by omega) (bodyOf p e) s4 h4 l4
+    (by rw [hbo]; exact hbody.1) (by rw [hbo]; exact hbody.2.1) (by rw [hbo]; exact hbody.2.2)
+  generalize evalE (readNode (upd p f)) (setSignal f) e (bodyOf p e) s4 = r at ev evq evv
   obtain ⟨s8, v⟩ := r
-  simp only at ev evq ⊢
+  simp only at ev evq evv ⊢
   obtain ⟨h8, l8⟩ := ev
+  obtain ⟨L8, hL8, hval8⟩ := evv
+  have hseen8 : (s8.get e).seen = L8 := by rw [hL8, g4e]; rfl
   have h9 : InvR p ({ s8 with obs := none } : State) :=
     h8.reobs rfl (fun o ho => by cases ho)
   have he9 : e < ({ s8 with obs := none } : State).nodes.length := s8.lt_of_running l8.running
@@ -959,8 +1111,8 @@ theorem effRun_specC {p : Prog} {f : Nat} (hu : UpdOK p (upd p f) f) (hf : p.len
   have sl := evq.self
   have b10 : EffB s10 e :=
     ⟨(by rw [g10e]; exact sl.live), (by rw [g10e]; exact sl.srcSeen), fun _ => (by rw [g10e]; exact sl.ran)⟩
-  have c10 : InvC p s10 (some e) := by
-    refine InvC.congrE e h8 (fun i hie _ => g10o i hie) ?_ ?_ (fun _ => b10) evq.others
+  have c10 : InvC p s10 (some e) D := by
+    refine InvC.congrE e h8 (fun i hie _ => g10o i hie) ?_ ?_ (fun _ => b10) hD evq.others
     · intro y; by_cases hy : y = e
       · subst hy; rw [g10e]
       · rw [g10o y hy]
@@ -976,7 +1128,14 @@ theorem effRun_specC {p : Prog} {f : Nat} (hu : UpdOK p (upd p f) f) (hf : p.len
     · subst hw; rw [g10e] at hy; exact hy
     · rw [g10o w hw] at hy; exact hy)
   refine ⟨⟨⟨h10, idle10⟩, c10.close (fun _ => ?_), ss10⟩, by rw [g10e]; exact l8.kind⟩
-  refine ⟨?_, ?_, ?_, ?_⟩
+  refine ⟨?_, ?_, ?_, ?_, ?_⟩
+  rotate_left 4
+  · intro _ ρ hρ
+    rw [g10e] at hρ ⊢
+    have hρ' : ∀ z ∈ L8, ρ z.1 = z.2.1 := by
+      intro z hz; apply hρ; show z ∈ (s8.get e).seen; rw [hseen8]; exact hz
+    show some v = some (evalPure ρ (bodyOf p e))
+    rw [hval8 ρ hρ']
   · intro hro hd10 z hz
     rw [g10e] at hz
     have hz' : z ∈ (s8.get e).seen := hz
@@ -1005,26 +1164,26 @@ theorem effRun_specC {p : Prog} {f : Nat} (hu : UpdOK p (upd p f) f) (hf : p.len
     exact sl.closed hc8 z hz hky
 
 theorem EffC.toBusy {p : Prog} {s : State} {e : Nat} (h : EffC p s e) : BusyC p s e :=
-  ⟨h.vals, h.quietFlags, h.srcClean⟩
+  ⟨h.vals, h.quietFlags, h.srcClean, h.valOK⟩
 
 theorem effLoop_specC {p : Prog} {f : Nat} (hu : UpdOK p (upd p f) f) (hf : p.length < f)
-    (hpe : EffOK p) (e : Nat) : ∀ (k : Nat) (s : State), Quiet p s → InvC p s (some e) →
+    (hpe : EffOK p) (e : Nat) : ∀ (k : Nat) (s : State), Quiet p s → InvC p s (some e) D →
       (s.get e).kind = .eff → BusyC p s e →
-      (k = 0 → (s.get e).chan = true → (s.get e).woken = true) → SrcStatic p s →
-      TopC p (effLoop p f k s e)
-  | 0, s, hq, hc, _, hb, hcw, hss =>
-    ⟨hq, hc.close (fun _ => ⟨hb.vals, hb.quietFlags, hcw rfl, hb.srcClean⟩), hss⟩
-  | k + 1, s, hq, hc, hk, hb, _, hss => by
+      (k = 0 → (s.get e).chan = true → (s.get e).woken = true) → SrcStatic p s → ¬ D e →
+      TopC p (effLoop p f k s e) D
+  | 0, s, hq, hc, _, hb, hcw, hss, _ =>
+    ⟨hq, hc.close (fun _ => ⟨hb.vals, hb.quietFlags, hcw rfl, hb.srcClean, hb.valOK⟩), hss⟩
+  | k + 1, s, hq, hc, hk, hb, _, hss, hD => by
     rw [effLoop_succ]
     split
     · next hnc =>
       have hcf : (s.get e).chan = false := by simpa using hnc
-      exact ⟨hq, hc.close (fun _ => ⟨hb.vals, hb.quietFlags, fun h => (by rw [hcf] at h; cases h), hb.srcClean⟩), hss⟩
+      exact ⟨hq, hc.close (fun _ => ⟨hb.vals, hb.quietFlags, fun h => (by rw [hcf] at h; cases h), hb.srcClean, hb.valOK⟩), hss⟩
     · have he : e < s.nodes.length := s.lt_of_kind_ne (by rw [hk]; simp)
       obtain ⟨q1, hk1⟩ := hq.flagEff hk (fun n => { n with chan := false })
         (fun _ => ⟨rfl, rfl, rfl, rfl, rfl, rfl⟩)
       obtain ⟨c1, b1⟩ := hc.flagBusy hq.inv hk (hq.idle e) (fun n => { n with chan := false })
-        (fun _ => rfl)
+        (fun _ => rfl) hD
       have g1e : (s.upd e fun n => { n with chan := false }).get e = { s.get e with chan := false } :=
         State.get_upd_same _ _ he
       have g1f : ∀ y, ((s.upd e fun n => { n with chan := false }).get y).running = (s.get y).running ∧
@@ -1040,20 +1199,22 @@ theorem effLoop_specC {p : Prog} {f : Nat} (hu : UpdOK p (upd p f) f) (hf : p.le
         exact hb.vals hro hd z hz
       have hchan1 : ((s.upd e fun n => { n with chan := false }).get e).chan = false := by rw [g1e]
       have hss1 : SrcStatic p (s.upd e fun n => { n with chan := false }) := hss.updFlag e _ (fun _ => rfl)
+      have hval1 : ValOK p (s.upd e fun n => { n with chan := false }) e :=
+        hb.valOK.of_core (by rw [g1e]; rfl)
       simp only
-      generalize (s.upd e fun n => { n with chan := false }) = s1 at q1 hk1 c1 b1 hvals1 hchan1 hss1
+      generalize (s.upd e fun n => { n with chan := false }) = s1 at q1 hk1 c1 b1 hvals1 hchan1 hss1 hval1
       split
       · next hp => rw [b1.live.2.1] at hp; cases hp
-      · have post := effUpdate_specC hu (by omega) q1 c1 hk1 hvals1 hchan1 hss1
+      · have post := effUpdate_specC hu (by omega) q1 c1 hk1 hvals1 hchan1 hss1 hD hval1
         rw [q1.obs]
         generalize effUpdate p f { s1 with obs := some e } e = r at post
         obtain ⟨s2, need⟩ := r
         simp only at post ⊢
         split
-        · obtain ⟨t4, hk4⟩ := effRun_specC hu hf hpe post.quiet post.conv post.kind post.clean post.cw post.ss
-          have e4 := t4.conv.eff e hk4 (t4.quiet.idle e) (by simp)
+        · obtain ⟨t4, hk4⟩ := effRun_specC hu hf hpe post.quiet post.conv post.kind post.clean post.cw post.ss hD
+          have e4 := t4.conv.eff e hk4 (t4.quiet.idle e) hD (by simp)
           exact effLoop_specC hu hf hpe e k _ t4.quiet (t4.conv.weaken _) hk4 e4.toBusy
-            (fun _ => e4.chanWoken) t4.ss
+            (fun _ => e4.chanWoken) t4.ss hD
         · next hnr =>
           have hneed : need = false := by
             cases need with
@@ -1065,19 +1226,19 @@ theorem effLoop_specC {p : Prog} {f : Nat} (hu : UpdOK p (upd p f) f) (hf : p.le
             | true => rw [hneed, hf'] at hnr; simp at hnr
           have rdy := post.ready hneed
           have e3 : EffC p ({ s2 with obs := none } : State) e :=
-            ⟨fun hro _ => rdy.1 hro, fun _ => ⟨post.clean, hfirst⟩, post.cw, fun _ => rdy.2⟩
+            ⟨fun hro _ => rdy.1 hro, fun _ => ⟨post.clean, hfirst⟩, post.cw, fun _ => rdy.2, post.valOK⟩
           exact effLoop_specC hu hf hpe e k _ post.quiet post.conv post.kind e3.toBusy
-            (fun _ => e3.chanWoken) post.ss
+            (fun _ => e3.chanWoken) post.ss hD
 
-theorem pollEff_specC {p : Prog} (hp : MemoOK p) (hpe : EffOK p) {s : State} {e : Nat} (h : TopC p s)
-    (hk : (s.get e).kind = .eff) : TopC p (pollEff p s e) := by
+theorem pollEff_specC {p : Prog} (hp : MemoOK p) (hpe : EffOK p) {s : State} {e : Nat} (h : TopC p s NoDead)
+    (hk : (s.get e).kind = .eff) : TopC p (pollEff p s e) NoDead := by
   unfold pollEff
   have he : e < s.nodes.length := s.lt_of_kind_ne (by rw [hk]; simp)
-  have e0 := h.conv.eff e hk (h.quiet.idle e) (by simp)
+  have e0 := h.conv.eff e hk (h.quiet.idle e) (fun hd => hd) (by simp)
   obtain ⟨q1, hk1⟩ := h.quiet.flagEff hk (fun n => { n with woken := false })
     (fun _ => ⟨rfl, rfl, rfl, rfl, rfl, rfl⟩)
   obtain ⟨c1, b1⟩ := (h.conv.weaken (some e)).flagBusy h.quiet.inv hk (h.quiet.idle e)
-    (fun n => { n with woken := false }) (fun _ => rfl)
+    (fun n => { n with woken := false }) (fun _ => rfl) (fun hd => hd)
   have g1e : (s.upd e fun n => { n with woken := false }).get e = { s.get e with woken := false } :=
     State.get_upd_same _ _ he
   have g1f : ∀ y, ((s.upd e fun n => { n with woken := false }).get y).running = (s.get y).running ∧
@@ -1086,7 +1247,7 @@ theorem pollEff_specC {p : Prog} (hp : MemoOK p) (hpe : EffOK p) {s : State} {e 
       ((s.upd e fun n => { n with woken := false }).get y).kind = (s.get y).kind := by
     intro y; rw [State.get_upd]; split <;> exact ⟨rfl, rfl, rfl, rfl⟩
   have hb1 : BusyC p (s.upd e fun n => { n with woken := false }) e := by
-    refine ⟨?_, ?_, ?_⟩
+    refine ⟨?_, ?_, ?_, e0.valOK.of_core (by rw [g1e]; rfl)⟩
     · intro hro hd z hz
       rw [g1e] at hd hz
       rw [(g1f z.1).1, (g1f z.1).2.1]
@@ -1104,10 +1265,10 @@ theorem pollEff_specC {p : Prog} (hp : MemoOK p) (hpe : EffOK p) {s : State} {e 
   · next hal =>
     rw [b1.live.1] at hal; simp at hal
   · exact effLoop_specC (upd_ok hp (fuelFor p)) (by simp [fuelFor]) hpe e 64 s1 q1 c1 hk1 hb1
-      (fun h0 => by cases h0) hss1
+      (fun h0 => by cases h0) hss1 (fun hd => hd)
 
-theorem pollNth_specC {p : Prog} (hp : MemoOK p) (hpe : EffOK p) {s : State} (h : TopC p s) (i : Nat) :
-    TopC p (pollNth p s i) := by
+theorem pollNth_specC {p : Prog} (hp : MemoOK p) (hpe : EffOK p) {s : State} (h : TopC p s NoDead) (i : Nat) :
+    TopC p (pollNth p s i) NoDead := by
   unfold pollNth
   simp only
   split
@@ -1124,7 +1285,7 @@ theorem pollNth_specC {p : Prog} (hp : MemoOK p) (hpe : EffOK p) {s : State} (h 
     exact List.getElem_mem hlt
 
 theorem runIdle_specC {p : Prog} (hp : MemoOK p) (hpe : EffOK p) :
-    ∀ (k : Nat) (s : State), TopC p s → TopC p (runIdle p k s)
+    ∀ (k : Nat) (s : State), TopC p s NoDead → TopC p (runIdle p k s) NoDead
   | 0, _, h => h
   | k + 1, s, h => by
     unfold runIdle
@@ -1146,23 +1307,24 @@ theorem init_eff_fields (p : Prog) (i : Nat) (hk : ((initState p).get i).kind = 
     rw [hp] at hk
     cases d <;> simp_all [initNode]
 
-theorem init_topC (p : Prog) : TopC p (initState p) := by
-  refine ⟨init_quiet p, ⟨?_, ?_⟩, fun w y hy => by rw [(init_fields p w).1] at hy; cases hy⟩
-  · intro i hk _
+theorem init_topC (p : Prog) : TopC p (initState p) NoDead := by
+  refine ⟨init_quiet p, ⟨?_, ?_, fun _ hd => hd.elim⟩, fun w y hy => by rw [(init_fields p w).1] at hy; cases hy⟩
+  · intro i hk _ _
     have f := init_eff_fields p i hk
     have g := init_fields p i
     exact ⟨⟨f.2.2.2.2.1, f.2.2.2.2.2.1, f.2.2.2.2.2.2⟩, (by rw [g.1, g.2.2.1]; rfl),
       fun hf => (by rw [f.2.2.2.1] at hf; cases hf)⟩
-  · intro i hk _ _
+  · intro i hk _ _ _
     have f := init_eff_fields p i hk
     exact ⟨fun _ hd => (by rw [f.1] at hd; cases hd), fun hc => (by rw [f.2.1] at hc; cases hc),
-      fun _ => f.2.2.1, fun hc => (by rw [f.2.1] at hc; cases hc)⟩
+      fun _ => f.2.2.1, fun hc => (by rw [f.2.1] at hc; cases hc),
+      fun hr => absurd (init_fields p i).2.2.2.2.1 hr⟩
 
 def Op.plain : Op → Bool
   | .pause _ => false | .resume _ => false | .dispose _ => false | _ => true
 
 theorem step_topC {p : Prog} (hp : MemoOK p) (hpe : EffOK p) {s : State}
-    (h : TopC p s) (o : Op) (ho : o.plain = true) : TopC p (step p s o).1 := by
+    (h : TopC p s NoDead) (o : Op) (ho : o.plain = true) : TopC p (step p s o).1 NoDead := by
   cases o with
   | set id v =>
     simp only [step]
@@ -1196,9 +1358,9 @@ theorem step_topC {p : Prog} (hp : MemoOK p) (hpe : EffOK p) {s : State}
   | dispose e => cases ho
 
 theorem run_topC {p : Prog} (hp : MemoOK p) (hpe : EffOK p) (ops : List Op)
-    (hops : ∀ o ∈ ops, o.plain = true) : TopC p (run p ops) := by
+    (hops : ∀ o ∈ ops, o.plain = true) : TopC p (run p ops) NoDead := by
   unfold run
-  suffices ∀ s, TopC p s → TopC p (ops.foldl (fun s o => (step p s o).1) s) from
+  suffices ∀ s, TopC p s NoDead → TopC p (ops.foldl (fun s o => (step p s o).1) s) NoDead from
     this _ (init_topC p)
   induction ops with
   | nil => intro s h; exact h
@@ -1217,8 +1379,8 @@ theorem effects_current {p : Prog} (hwf : WF p = true) (ht : bodiesTracked p = t
   have h := run_topC (memoOK_of_wf hwf) (effOK_of_wf hwf ht) ops hops
   generalize run p ops = s at h hidle hk
   have hi : i < s.nodes.length := s.lt_of_kind_ne (by rw [hk]; simp)
-  have hb := h.conv.base i hk (h.quiet.idle i)
-  have hc := h.conv.eff i hk (h.quiet.idle i) (by simp)
+  have hb := h.conv.base i hk (h.quiet.idle i) (fun hd => hd)
+  have hc := h.conv.eff i hk (h.quiet.idle i) (fun hd => hd) (by simp)
   -- not woken
   have hw : (s.get i).woken = false := by
     cases hw : (s.get i).woken with
@@ -1259,8 +1421,8 @@ theorem effect_current_of_unnotified {p : Prog} (hwf : WF p = true) (ht : bodies
     ∀ z ∈ ((run p ops).get i).seen, specVal p (run p ops) z.1 = z.2.1 := by
   have h := run_topC (memoOK_of_wf hwf) (effOK_of_wf hwf ht) ops hops
   generalize run p ops = s at h hk hch
-  have hb := h.conv.base i hk (h.quiet.idle i)
-  have hc := h.conv.eff i hk (h.quiet.idle i) (by simp)
+  have hb := h.conv.base i hk (h.quiet.idle i) (fun hd => hd)
+  have hc := h.conv.eff i hk (h.quiet.idle i) (fun hd => hd) (by simp)
   have q := hc.quietFlags hch
   refine ⟨hb.ran q.2, ?_⟩
   intro z hz
@@ -1279,7 +1441,7 @@ theorem effect_current_of_unnotified {p : Prog} (hwf : WF p = true) (ht : bodies
   · rw [h.quiet.idle z.1] at h1; cases h1
   · rw [hv] at h1; exact Option.some.inj h1
 
-/-- in a WF program without self-feedback every effect satisfies the guard `RO` -/
+/-- in a WF program without self-feedback every effect satisfies the guard `NoFB` -/
 theorem NoFB.of_noSelfFeedback {p : Prog} (hwf : WF p = true) (hnf : noSelfFeedback p = true) {i : Nat}
     {b : Expr} (hb : p[i]? = some (.eff b)) : NoFB p i := by
   intro sg y hw hr
